@@ -42,13 +42,13 @@ Print Assumptions C04_bool_any_nonzero.
 Theorem C04_int : forall v, int_ok v -> atoi (itoa_z v) = Some v.
 Proof. exact atoi_itoa_z_all. Qed.
 Print Assumptions C04_int.
-Theorem C04_colour_written : forall c, color_ok c -> parse_color (format_color c) = Ok (Some c).
+Example C04_colour_written : forall c, color_ok c -> parse_color (format_color c) = Ok (Some c).
 Proof. exact parse_color_format. Qed.
 Print Assumptions C04_colour_written.
-Theorem C04_colour_hex_upper : forall c, color_ok c -> parse_color (amp_h ++ map hex_upper (color_string c)) = Ok (Some c).
+Example C04_colour_hex_upper : forall c, color_ok c -> parse_color (amp_h ++ map hex_upper (color_string c)) = Ok (Some c).
 Proof. exact parse_color_hex_upper. Qed.
 Print Assumptions C04_colour_hex_upper.
-Theorem C04_colour_decimal : forall c, color_ok c -> parse_color (itoa_z (color_value c)) = Ok (Some c).
+Example C04_colour_decimal : forall c, color_ok c -> parse_color (itoa_z (color_value c)) = Ok (Some c).
 Proof. exact parse_color_decimal. Qed.
 Print Assumptions C04_colour_decimal.
 Theorem C04_number : forall z, float_ok z -> parse_float3 (format_float3 z) = Some z.
@@ -60,7 +60,7 @@ Print Assumptions C04_timer.
 Theorem C04_time_written : forall t, (0 <= t <= max_int64)%Z -> parse_time (format_ssa t) = Some (t - t mod 10000000)%Z.
 Proof. exact parse_time_format. Qed.
 Print Assumptions C04_time_written.
-Theorem C04_time_one_digit_hour : forall h m s c, (0 <= h <= 9)%Z -> (0 <= m < 60)%Z -> (0 <= s < 60)%Z -> (0 <= c < 100)%Z ->
+Example C04_time_one_digit_hour : forall h m s c, (0 <= h <= 9)%Z -> (0 <= m < 60)%Z -> (0 <= s < 60)%Z -> (0 <= c < 100)%Z ->
   parse_time (itoa_z h ++ [58%N] ++ two m ++ [58%N] ++ two s ++ [46%N] ++ two c) =
   Some (h * hour_ns + m * minute_ns + s * second_ns + c * 10000000)%Z.
 Proof. exact parse_time_h_mm_ss_cc. Qed.
@@ -253,7 +253,7 @@ Theorem C04_read_spaced : forall hi b keys styles he fe erows e,
   read_ssa_lines (spaced_lines hi b keys styles he fe erows) e = read_ssa_lines (rendered_lines hi b keys styles he fe erows) e.
 Proof. exact read_spaced. Qed.
 Print Assumptions C04_read_spaced.
-Theorem C04_rendering_ok_reads : forall hi b keys styles he fe erows scols ecols,
+Example C04_rendering_ok_reads : forall hi b keys styles he fe erows scols ecols,
   rendering_ok hi b keys styles he fe erows scols ecols ->
   read_ssa_lines (rendered_lines hi b keys styles he fe erows) false = Ok (rendering_denotes b styles erows).
 Proof. exact read_rendered_ok. Qed.
@@ -471,7 +471,7 @@ Theorem C04_time_any_hours : forall (k : nat) h m s c, (0 <= h)%Z -> (0 <= m < 6
   Some (h * hour_ns + m * minute_ns + s * second_ns + c * 10000000)%Z.
 Proof. exact parse_time_hh_mm_ss_cc. Qed.
 Print Assumptions C04_time_any_hours.
-Theorem C04_time_two_digit_hours : forall h m s c, (0 <= h < 100)%Z -> (0 <= m < 60)%Z -> (0 <= s < 60)%Z -> (0 <= c < 100)%Z ->
+Example C04_time_two_digit_hours : forall h m s c, (0 <= h < 100)%Z -> (0 <= m < 60)%Z -> (0 <= s < 60)%Z -> (0 <= c < 100)%Z ->
   parse_time (two h ++ [58%N] ++ two m ++ [58%N] ++ two s ++ [46%N] ++ two c) =
   Some (h * hour_ns + m * minute_ns + s * second_ns + c * 10000000)%Z.
 Proof. exact parse_time_two_hours. Qed.
@@ -492,7 +492,7 @@ Theorem C04_event_row_spellings : forall cols init last ev, event_row cols init 
 Proof. exact event_row_spelling. Qed.
 Print Assumptions C04_event_row_spellings.
 (* audit item g *)
-Theorem C04_float_cells_in_domain : forall x src cell, cell_denotes (AF x) src cell -> cell = [] \/ float_cell_in_domain cell.
+Example C04_float_cells_in_domain : forall x src cell, cell_denotes (AF x) src cell -> cell = [] \/ float_cell_in_domain cell.
 Proof. exact cell_denotes_float_in_domain. Qed.
 Print Assumptions C04_float_cells_in_domain.
 Theorem C04_style_row_floats_in_domain : forall cols cells st, style_row cols cells st -> Forall2 float_col_in_domain cols cells.
@@ -564,7 +564,7 @@ Theorem C04_dialogue_rows : forall pre secs, adoc_ok pre secs ->
   filter is_dialogue (flat_map asec_events secs) = flat_map asec_dialogues secs.
 Proof. exact dialogue_rows. Qed.
 Print Assumptions C04_dialogue_rows.
-Theorem C04_read_sections_again : forall b secs e, info_ok b ->
+Example C04_read_sections_again : forall b secs e, info_ok b ->
   match secs with [] => True | x :: r => rsec_ok true x /\ Forall (rsec_ok false) r end ->
   comments_of (flat_map entries_of secs) = an_comments b -> (forall f, In (IK f) (flat_map entries_of secs)) ->
   let sts := flat_map styles_of secs in
@@ -611,3 +611,12 @@ Print Assumptions C04_rewrite_sections_all.
    storing 12.3456; the model answers Err EOther).  So outside the domain nothing is claimed about the library beyond
    "no panic" (C08); inside it values are compared exactly.  The domain itself is explicit: C04_float_cells_in_domain,
    C04_number_spellings (every float cell a theorem quantifies over lies inside). *)
+
+(* ---- second audit, item (i)10: instances are Examples ----
+   The following statements are instances or repackagings of general theorems of this file and are therefore stated as
+   Examples (they keep their names; they are not counted as theorems of the property):
+   C04_colour_written, C04_colour_hex_upper, C04_colour_decimal (instances of C04_colour_spellings / C04_colour_hex_any_case /
+   C04_colour_decimal_any); C04_time_one_digit_hour, C04_time_two_digit_hours (instances of C04_time_any_hours);
+   C04_rendering_ok_reads (C04_read_rendered under the packaging rendering_ok); C04_read_sections_again (the statement of
+   C04_read_sections re-derived from C04_read_sections_all: a consistency check); C04_float_cells_in_domain (the one-cell
+   case of C04_style_row_floats_in_domain). *)
